@@ -34,6 +34,7 @@
 import EG.Lemmas.JoinsBBoxPolyMain
 import EG.Lemmas.JoinsBBoxTriMain
 import EG.Lemmas.JoinsBBoxWidth1
+import EG.Lemmas.JoinsBBoxTriWidth1
 namespace EG.C02.JoinsBBox
 open EG EG.Joins
 
@@ -205,6 +206,33 @@ theorem triangle_fill_in_bounding_box (t : Tri) (style : TriStyle) (hw : style.s
 
 example : TriTopGuard ⟨⟨0, 0⟩, ⟨9, 1⟩, ⟨2, 7⟩⟩ := by decide
 
+/-- **Stroke width 1 (any alignment, with or without fill): `draw` and `pixels()` stay inside
+`bounding_box()`** (the plain vertex box). Every corner of a width-1 join is the vertex itself
+(`Line::extents(1, _)` returns the line twice for every stroke offset), so the edge segments are
+skeleton segments running between the vertices. Hypothesis: `i32` vertices. -/
+theorem triangle_width1_in_bounding_box (t : Tri) (style : TriStyle) (hw : style.strokeWidth = 1)
+    (hi : TriI32 t) (hg : TriTopGuard t) (bb : Rect) (hbb : triStyledBoundingBox t style = some bb) :
+    (∀ calls, triDraw t style = some calls →
+      ∀ rc ∈ calls, ∀ p, rc.1.contains p = true → bb.contains p = true) ∧
+    (∀ px, triPixels t style = some px → ∀ pc ∈ px, bb.contains pc.1 = true) := by
+  have hb : bb = t.boundingBox := by
+    unfold triStyledBoundingBox at hbb
+    have : style.strokeWidth < 2 ∨ style.strokeAlignment = .inside := Or.inl (by omega)
+    simp only [this, ↓reduceIte, Option.some.injEq] at hbb
+    exact hbb.symm
+  subst hb
+  have ctx : ∀ c, t.sortedClockwise.isCollapsed style.strokeWidth style.strokeAlignment.toOffset = some c →
+      TriCtx t.sortedClockwise style.strokeWidth style.strokeAlignment.toOffset t.boundingBox.tl.x
+        (t.boundingBox.tl.x + t.boundingBox.size.w - 1)
+        (c && style.strokeAlignment.toOffset == .right) style.fillColor.isSome := by
+    intro c _
+    rw [hw]
+    exact triCtx_width1 t _ hi _ _
+  exact ⟨fun calls hd => triDraw_in_box t style _ hbb hg ctx calls hd,
+    fun px hpx => triPixels_in_box t style _ hbb hg ctx px hpx⟩
+
+example : TriI32 ⟨⟨0, 0⟩, ⟨9, 1⟩, ⟨2, 7⟩⟩ := by decide
+
 /-- **Inside stroke (any width) that is collapsed (`is_collapsed`: the inner edges cross, the whole
 triangle is painted in the stroke colour): `draw` and `pixels()` stay inside `bounding_box()`**
 (the plain vertex box). -/
@@ -239,8 +267,8 @@ example : (⟨⟨0, 0⟩, ⟨9, 1⟩, ⟨2, 7⟩⟩ : Tri).sortedClockwise.isCol
 /-- **Any stroke width, any alignment, with or without fill: if the end points of the outline lines
 of the three stroke segments (at most 24 points) and the three vertices lie in `bounding_box()`,
 then everything `draw` fills and every point of `pixels()` does** (the reduction used above, with
-the geometric part left as the decidable hypothesis `TriOutlineGuard`; it covers the cases the
-theorems above do not: Inside strokes that are not collapsed, and stroke width 1). -/
+the geometric part left as the decidable hypothesis `TriOutlineGuard`; it covers the case the
+theorems above do not: Inside strokes of width > 1 that are not collapsed). -/
 theorem triangle_in_bounding_box_of_outline (t : Tri) (style : TriStyle)
     (hg : TriOutlineGuard t style) (bb : Rect) (hbb : triStyledBoundingBox t style = some bb) :
     (∀ calls, triDraw t style = some calls →
@@ -254,14 +282,10 @@ theorem triangle_in_bounding_box_of_outline (t : Tri) (style : TriStyle)
 -- an Inside stroke of width 3 that is not collapsed
 example : TriOutlineGuard ⟨⟨0, 0⟩, ⟨20, 3⟩, ⟨6, 18⟩⟩ ⟨some 1, some 2, 3, .inside⟩ := by decide
 example : (⟨⟨0, 0⟩, ⟨20, 3⟩, ⟨6, 18⟩⟩ : Tri).sortedClockwise.isCollapsed 3 .right = some false := by decide
--- stroke width 1, the three alignments
-example : TriOutlineGuard ⟨⟨0, 0⟩, ⟨9, 1⟩, ⟨2, 7⟩⟩ ⟨some 1, some 2, 1, .center⟩ := by decide
-example : TriOutlineGuard ⟨⟨0, 0⟩, ⟨9, 1⟩, ⟨2, 7⟩⟩ ⟨none, some 2, 1, .inside⟩ := by decide
-example : TriOutlineGuard ⟨⟨0, 0⟩, ⟨9, 1⟩, ⟨2, 7⟩⟩ ⟨none, some 2, 1, .outside⟩ := by decide
+example : TriOutlineGuard ⟨⟨-3, 2⟩, ⟨15, -9⟩, ⟨8, 14⟩⟩ ⟨none, some 2, 2, .inside⟩ := by decide
 
 -- [V] stroked polyline / triangle (width > 1) with a skeleton segment beside a join whose filler line is on the left side, when the midpoint of that filler line is NOT in the box (guard `adjOK`; no such input is known): carried by correspondence + oracle only
 -- [V] filled triangle with a Center / Outside stroke of width > 1 whose vertices are not all inside the stroke box (thin slivers; guard `TriStrokeGuard`): the plain triangle scanline of a row without stroke scanlines stays in the box: carried by correspondence + oracle only
 -- [V] triangle with an Inside stroke of width > 1 that is not collapsed: the inner corners (rounded intersections of the inner edge lines; hypothesis `TriOutlineGuard` of `triangle_in_bounding_box_of_outline`) lie inside the plain vertex box: carried by correspondence + oracle only
--- [V] triangle of stroke width 1: the corners of the width-1 joins are the vertices for every alignment (hypothesis `TriOutlineGuard`; proved for Center alignment and `i32` vertices in C19/Joins.lean `join_width1_corners`): carried by correspondence + oracle only
 
 end EG.C02.JoinsBBox
